@@ -326,7 +326,9 @@ pub fn mutate_tree(v: &mut Value, src: &mut Src, budget: usize) -> Option<String
         }
         1 => {
             // push an integer past its type range
-            let big = *src.pick(&[255u64, 256, 65535, 65536, 0xFFFF_FFFF, 0x1_0000_0000, 1 << 63, u64::MAX]);
+            // unsigned type maxima and maxima + 1, and - read as the argument of a negative integer - the
+            // signed minima (-1 - n): 2^7-1, 2^15-1, 2^31-1, 2^63-1 are i8/i16/i32/i64::MIN
+            let big = *src.pick(&[255u64, 256, 65535, 65536, 0xFFFF_FFFF, 0x1_0000_0000, 1 << 63, u64::MAX, 127, 128, 32767, 32768, (1 << 31) - 1, 1 << 31, (1 << 63) - 1, u64::MAX - 1]);
             match node {
                 Value::Uint(u) => {
                     if src.bool() {
